@@ -86,4 +86,13 @@ theorem tables_schema_tags :
     ∧ Generated.schemaPrimTagsWritten.all (fun (k, n) => Generated.schemaPrimTagsRead.any (fun (n', k') => n == n' && k == k')) = true := by
   decide
 
+/-- the comparison functions pair a schema kind only with itself, and with exactly the kinds the model pairs:
+    every arm of `diff_schema` and of `Schema::layout_compatible` in the current source matches the same kind on both
+    sides (a merged arm such as `Boxed | Reference | Slice` on both sides would compare a box with a slice) -/
+theorem tables_schema_arms :
+    Generated.diffSchemaArms = Pinned.diffSchemaArms ∧ Generated.layoutCompatibleArms = Pinned.layoutCompatibleArms
+    ∧ (Generated.diffSchemaArms.getD []).all (fun p => p.1 == p.2) = true
+    ∧ (Generated.layoutCompatibleArms.getD []).all (fun p => p.1 == p.2) = true
+    ∧ Generated.diffSchemaArms.isSome = true ∧ Generated.layoutCompatibleArms.isSome = true := by decide
+
 end Sfv
